@@ -90,6 +90,15 @@ class FakeConn:
             self.outbox.clear()
             self.net.peer.on_client_close(self)
             self.net._refresh(self)
+            # as a real transport does: close() schedules connection_lost(None), which
+            # feeds EOF to the stream reader, so a read that is pending while the
+            # connection is closed locally (wpull's CloseTimer) wakes up
+            if not self.eof_sent:
+                self.net.loop.call_soon(self._local_eof)
+
+    def _local_eof(self):
+        if not self.reader.at_eof() and not self.reader._eof:
+            self.reader.feed_eof()
 
     # --- server side ----------------------------------------------------------
     def send(self, data):
